@@ -2,68 +2,43 @@
 from harness import core, full_oracle, l5full
 
 
-def judge(multi, res):
-    """-> (violations [(text, tags)], links dereferenced, hidden subjects) or None when no report can be judged"""
-    if res.get("err"):
-        if res.get("stage") == "computed" and res["err"] == "KeyError" and "_AssetAndYear" in res.get("msg", ""):
-            return ([(f"building the link of a Summary line raised KeyError {res.get('msg', '')[:120]}: the year has a summary line but none of its "
-                      "gain/loss rows is shown (from-date inside the year); no report is written", {"summary-link-keyerror"})], 0, 0)
-        return None
-    return full_oracle.check_c19(multi, res)
-
-
-def collisions(multi):
-    """row ids used by more than one asset"""
-    seen, n = {}, 0
-    for c in multi["assets"]:
-        for r in {x["row"] for x in c["ins"] + c["outs"] + c["intras"]}:
-            n += 1 if r in seen else 0
-            seen[r] = True
-    return n
-
-
 def run(tier, build, replay=None):
     out = core.Outcome("C19", tier)
     proofs = core.check_proofs(build, "C19.v")
-    if replay:
-        cases = [replay]
-        impl, model = l5full.run_cases(cases)
-    else:
-        data = l5full.run(tier)
-        cases, impl, model = data["cases"], data["impl"], data["model"]
+    recs = l5full.judge_cases([replay]) if replay else l5full.run(tier)["records"]
     nontriv, mism, judged, links, hidden, colliding = set(), 0, 0, 0, 0, 0
-    for multi, res, raw in zip(cases, impl, model):
-        v = judge(multi, res)
-        if v is None:
+    for rec in recs:
+        multi = rec["case"]
+        if rec["c19"] is None:
             continue
-        viol, nl, nh = v
+        viol, nl, nh = rec["c19"]
         judged += 1
         links += nl
         hidden += nh
-        col = collisions(multi)
+        col = rec["stats"]["collisions"]
         colliding += 1 if col else 0
         shrunk = None
         for text, tags in viol[:3]:
+            tags = set(tags)
             if shrunk is None:
-                shrunk = l5full.shrink(multi, lambda m, r, tg=tags: any(tg <= t2 for _, t2 in ((judge(m, r) or ([], 0, 0))[0])))
+                shrunk = l5full.shrink(multi, lambda m, r, tg=tags: any(tg <= t2 for _, t2 in ((full_oracle.judge_c19(m, r) or ([], 0, 0))[0])))
             out.violation(text, shrunk, tags=tags)
         if nl >= 2 and (nh >= 1 or col):
             nontriv.add(core.case_hash(multi))
-        if not res.get("err") or res.get("err") == "KeyError":
-            diff = l5full.correspondence(multi, res, raw)
-            if diff:
-                mism += 1
-                out.violation("model and implementation disagree on the report: " + "; ".join(diff[:4]), multi, tags={"correspondence"}, found_input=False)
-    core.proofs_verdict(out, proofs, build, "C19.v")
+        if rec["corr_links"]:
+            mism += 1
+            out.violation("model and implementation disagree on the hyperlinks of the report: " + "; ".join(rec["corr_links"][:4]), multi,
+                          tags={"correspondence"}, found_input=False)
+    l5full.proofs_verdict(out, proofs, build, "C19.v")
     out.coverage.update({
         "evaluations": judged,
         "distinct_nontrivial": len(nontriv),
         "rule": "every HYPERLINK formula of the Tax and Summary sheets of each generated report is parsed and dereferenced in the same file: the target row "
                 "must describe the very transaction the fraction was computed from (timestamp, type, amounts, exchange/holder, unique id, and no second "
-                "row doing so) / be the first gain-loss row of that year; a subject hidden by the date filter must carry no link; the same files are "
-                "compared cell by cell with the Coq model (which carries the row map across assets as the code does); non-trivial = at least two links "
-                "dereferenced and (row ids shared between assets or a subject hidden by the window)",
-        "samples": cases[:1],
+                "row doing so) / be the first gain-loss row of that year; a subject hidden by the date filter must carry no link; which cells are links and "
+                "where they lead is compared with the Coq model (which carries the row map across assets exactly as the source does); non-trivial = at "
+                "least two links dereferenced and (row ids shared between assets or a subject hidden by the window)",
+        "samples": [r["case"] for r in recs[:1]],
         "traces_validated_against_impl": judged,
         "links_dereferenced": links,
         "hidden_subjects_checked_unlinked": hidden,
@@ -71,7 +46,7 @@ def run(tier, build, replay=None):
         "correspondence_mismatches": mism,
     })
     out.assumptions = [
-        "theorems are about the Coq model of the generator; that the file holds the modelled formulas rests on the cell-by-cell comparison",
+        "theorems are about the Coq model of the generator; that the file holds the modelled formulas rests on the comparison of every link cell",
         "row ids are distinct within one asset (the input parser numbers rows per sheet; artificial fee transactions get fresh negative ids)",
         "'first gain/loss row of the year' is claimed for histories whose local dates are monotone in time (finding F9)",
     ]
